@@ -80,6 +80,44 @@ def ncRun (ops : List Val) : Option Val :=
       | some (.error e) => go rest l (.err e :: acc)
   go ops [] []
 
+/-! ### NoteContainer machine with OTHER containers that live on (values: nothing is shared between containers) -/
+def ncStep2 (st : NC × List NC) (op : Val) : Option (Except Err (NC × List NC)) :=
+  match op with
+  | .list [.str t, arg] =>
+    if t = lit "make_other" then (decodeAdds arg).map fun args => (NC.addNotes [] args).map fun o => (st.1, st.2 ++ [o])
+    else if t = lit "add_other" ∨ t = lit "plus_other" then
+      match arg with
+      | .int k => some (match st.2[k.toNat]? with
+        | some o => (NC.addNotes st.1 (o.map NC.AddArg.obj)).map fun l => (l, st.2)
+        | none => .error .index)
+      | _ => none
+    else if t = lit "add" then (decodeAdd arg).map fun a => (NC.addNote st.1 a).map fun l => (l, st.2)
+    else if t = lit "remove_name" then match arg with | .str nm => some (.ok (NC.removeByName st.1 nm (-1), st.2)) | _ => none
+    else none
+  | .list [.str t, .int k, arg] =>
+    if t = lit "other_add" then (decodeAdd arg).map fun a =>
+      match st.2[k.toNat]? with
+      | some o => (NC.addNote o a).map fun o' => (st.1, st.2.set k.toNat o')
+      | none => .error .index
+    else if t = lit "other_remove_name" then match arg with
+      | .str nm => some (match st.2[k.toNat]? with
+        | some o => .ok (st.1, st.2.set k.toNat (NC.removeByName o nm (-1)))
+        | none => .error .index)
+      | _ => none
+    else none
+  | _ => none
+
+def ncRun2 (ops : List Val) : Option Val :=
+  let out (st : NC × List NC) : Val := .list [ncOut st.1, .list (st.2.map ncOut)]
+  let rec go : List Val → NC × List NC → List Val → Option Val
+    | [], _, acc => some (.list acc.reverse)
+    | op :: rest, st, acc =>
+      match ncStep2 st op with
+      | none => none
+      | some (.ok st') => go rest st' (out st' :: acc)
+      | some (.error e) => go rest st (.err e :: acc)
+  go ops ([], []) []
+
 /-! ### Bar machine -/
 def entryOut (e : Entry) : Val := .list [ratVal e.start, ratVal e.value, contentOut e.content]
 def barOut (b : Bar) : Val :=
@@ -103,7 +141,11 @@ def barStep (b : Bar) (op : Val) : Option (Except Err (Val × Bar)) :=
       match decodeAdds c, ratOf v with
       | some args, some q => some ((b.placeAt args q).map fun b' => (.nil, b'))
       | _, _ => none
-    else if t = lit "set_meter" then
+    else if t = lit "place_at_entry" then          -- place_notes_at at the start beat the k-th entry actually has
+      match decodeAdds c, optInt v with
+      | some args, some k => some ((b.placeAt args (((b.entries[k.toNat]?).map (·.start)).getD (-1))).map fun b' => (.nil, b'))
+      | _, _ => none
+    else if t = lit "set_meter" ∨ t = lit "set_meter_f" then      -- set_meter_f: the beat unit as a Python float
       match optInt c, ratOf v with
       | some n, some q => some ((b.setMeter n q).map fun b' => (.nil, b'))
       | _, _ => none
